@@ -41,8 +41,11 @@ def seed():
         return 0
 
 
+OUTDIR = os.environ.get("VERIF_OUT", VERIF)        # evidence/ and replays/ (redirected when a seeded change is evaluated)
+
+
 def workdir(pid):
-    d = os.path.join(VERIF, ".work", pid)
+    d = os.path.join(VERIF, ".work", pid + os.environ.get("VERIF_WORKTAG", ""))
     shutil.rmtree(d, ignore_errors=True)
     os.makedirs(d, exist_ok=True)
     return d
@@ -358,8 +361,8 @@ class Report:
     def finish(self, extra_cov=None, max_print=10):
         pid = self.pid
         wall = time.time() - self.t0
-        os.makedirs(os.path.join(VERIF, "evidence"), exist_ok=True)
-        os.makedirs(os.path.join(VERIF, "replays"), exist_ok=True)
+        os.makedirs(os.path.join(OUTDIR, "evidence"), exist_ok=True)
+        os.makedirs(os.path.join(OUTDIR, "replays"), exist_ok=True)
         for key in sorted(self.known_seen):
             print("KNOWN-FINDING: property=%s %s %s (seen %d times; e.g. %s)" % (
                 pid, key, self.open[key].get("what", ""), self.known_seen[key],
@@ -370,7 +373,7 @@ class Report:
             firsts = {}
             for key, what, replay in self.viol:
                 firsts.setdefault(key, what)
-            with open(os.path.join(VERIF, ".work", pid + "_violations.json"), "w") as f:
+            with open(os.path.join(VERIF, ".work", pid + os.environ.get("VERIF_WORKTAG", "") + "_violations.json"), "w") as f:
                 json.dump(firsts, f, indent=1, default=str)
         except OSError:
             pass
@@ -381,7 +384,7 @@ class Report:
             nprint += 1
             if nprint > max_print:
                 continue
-            path = os.path.join(VERIF, "replays", "%s_%s.json" % (pid, re.sub(r"[^A-Za-z0-9_.=-]+", "_", key)[:120]))
+            path = os.path.join(OUTDIR, "replays", "%s_%s.json" % (pid, re.sub(r"[^A-Za-z0-9_.=-]+", "_", key)[:120]))
             with open(path, "w") as f:
                 json.dump({"property": pid, "key": key, "what": what, "case": replay}, f, indent=1, default=str)
             print("VIOLATION property=%s replay=%s" % (pid, path))
@@ -399,7 +402,7 @@ class Report:
         ev = {"property_id": pid, "tier": tier(), "seed": seed(), "level": self.level,
               "coverage": cov, "assumptions": self.assumptions, "wall_s": round(wall, 2),
               "violations": len(seen)}
-        with open(os.path.join(VERIF, "evidence", pid + ".json"), "w") as f:
+        with open(os.path.join(OUTDIR, "evidence", pid + ".json"), "w") as f:
             json.dump(ev, f, indent=1, default=str)
         print("%s: %s in %.1fs; traces=%d states=%d known=%d violations=%d" % (
             pid, tier(), wall, cov["traces_validated_against_impl"], cov["states"], len(self.known_seen), len(seen)))
